@@ -12,10 +12,21 @@ HOOK_COMMITS = []
 
 PROPS = {
     "C13": {"rule": "TODO", "level_text": "TODO", "level_note": "TODO"},
-    "C18": {"rule": "TODO", "level_text": "TODO", "level_note": "TODO"},
+    "C18": {
+        "rule": "per mode a pool of 7 (thorough 14) well-formed messages (options absent / populated / empty map / as generated; library and alternative encodings incl. the short arity); all ordered pairs and random triples decoded one after another into ONE receiver on both paths; the last decode is compared with a decode of the same bytes into a fresh receiver (Go-side judge) and with the model's prediction from the bytes alone; non-trivial = the two last messages differ",
+        "kernel_sample": 150,
+        "level_text": "Theorems C18_reuse_<mode> (all four modes, both decoder paths, every previous receiver value prev, every byte string): U_x p prev bs = U_x p zero bs, and C18_sequences for any sequence of inputs decoded into one receiver whatever state the receiver is in between the decodes. The model's decoders take the receiver as an argument so that an unassigned field would show; C18_refuted_pinned refutes the decoders of the pinned commit (D4, fixed). Correspondence: the real decoders are run on all ordered pairs/triples of a message pool into one receiver, the model must predict the content of the reused receiver from the bytes alone.",
+        "level_note": "Trusted: Coq kernel; hand-written model of message.go/forward_message.go/packed_forward_message.go decoders (checked by correspondence); extraction+driver (subsample re-evaluated by vm_compute). The theorem is definitional for the repaired model: its content is that the model which ignores the receiver predicts the real code's behaviour on reused receivers.",
+    },
     "C11": {"rule": "TODO", "level_text": "TODO", "level_note": "TODO"},
     "C10": {"rule": "TODO", "level_text": "TODO", "level_note": "TODO"},
-    "C19": {"rule": "TODO", "level_text": "TODO", "level_note": "TODO"},
+    "C19": {
+        "rule": "boundary seconds {0,1,2^31-1,2^31,2^32-1,...} x boundary nanoseconds {0,1,999999999} plus random pairs, each built under several time.Location settings (UTC, fixed +14h/-12h zones, Local); payload of MarshalBinaryTo, UnmarshalBinary result, also through EntryExt/MessageExt; random 8-byte and non-8-byte payloads for the decode/re-encode clauses; non-trivial = seconds >= 2^31 or non-UTC zone or nsec at a boundary",
+        "assumptions": ["Go's time.Time.UTC().Unix()/Nanosecond() depend on the instant only, not on the Location (the zone clause has content on the Go side only; the harness exercises it, the model's encoder takes the instant)"],
+        "kernel_sample": 150,
+        "level_text": "Theorems over all instants (no enumeration): C19_roundtrip (every (sec,nsec) with 0<=sec<2^32, nsec<10^9 decodes back exactly), C19_instant_only (the encoding is injective on the domain, so it is a function of the instant alone), C19_order (bytewise order of encodings = order of instants), C19_length_rejected/accepted (exactly 8 bytes), C19_reencode (decode then encode reproduces every payload whose nanosecond field is below 10^9). Correspondence: MarshalBinaryTo/UnmarshalBinary of the real code vs et_payload/dec_eventtime on boundary and random instants under several time zones.",
+        "level_note": "Trusted: Coq kernel; model of EventTime.MarshalBinaryTo/UnmarshalBinary (uint32 truncation and time.Unix normalisation written explicitly); zone independence of Go's time package is an assumption exercised by the harness; extraction+driver.",
+    },
     "C05": {"rule": "TODO", "level_text": "TODO", "level_note": "TODO"},
     "C01": {
         "rule": "TODO",
